@@ -21,7 +21,12 @@ type Rec struct {
 
 // Set records s.
 func (r *Rec) Set(s string) error { r.Vals = append(r.Vals, s); r.N++; return nil }
-func (r *Rec) String() string     { return "" }
+func (r *Rec) String() string {
+	if FaithfulString {
+		return strings.Join(r.Vals, ",")
+	}
+	return ""
+}
 
 // Clear makes the recorder multi-valued for the library.
 func (r *Rec) Clear() { r.Vals = nil }
@@ -48,6 +53,22 @@ type BRec struct{ Rec }
 
 // IsBoolFlag marks the recorder as a flag.
 func (b *BRec) IsBoolFlag() bool { return true }
+
+// String renders a flag the way the standard bool value does: its last value, "false" before any.
+func (b *BRec) String() string {
+	if !FaithfulString {
+		return ""
+	}
+	if len(b.Vals) == 0 {
+		return "false"
+	}
+	return b.Vals[len(b.Vals)-1]
+}
+
+// FaithfulString makes the recorders render their content in String(), as the flag.Value contract asks (a library
+// change that consults String() is invisible to recorders that always answer ""). Switched on by the checks that were
+// re-validated with it (C12); written only before any case runs.
+var FaithfulString bool
 
 // VRec is a recorder that HAS the IsBoolFlag method but answers false: it takes a value like any valued option.
 type VRec struct{ Rec }
